@@ -2,6 +2,7 @@
 # usage: confirm_seed.sh <seed-id> <pkg-dir> <test-regex>
 # Confirms a seeded change in a scratch worktree: demo fails with the change, passes without; build and suite pass with it.
 id=$1; pkg=$2; re=$3
+echo "#### $id ($pkg, $re) $(date -u +%FT%TZ)"
 export GOFLAGS=-mod=mod GOPROXY=off GOSUMDB=off GOTOOLCHAIN=local
 d=/tmp/confirm-$id
 git -C /repo worktree remove --force $d 2>/dev/null; rm -rf $d
